@@ -360,6 +360,10 @@ func runNetwork(t *testing.T, r *Rng, em *Emitter, roundEm func(JRound, JRoundIm
 		m.quiet = true
 		w.mu.Unlock()
 		decoy := &NodeOpts{N: n + 3, F: f + 1, OracleID: m.id, OffchainConfig: []byte(`{"performLockoutWindow":7000,"minConfirmations":3,"maxUpkeepBatchSize":1}`)}
+		if (m.id+m.restarts)%2 == 0 {
+			// … or one that differs only in settings the coordinator does not read
+			decoy.OffchainConfig = []byte(`{"performLockoutWindow":100000,"minConfirmations":1,"maxUpkeepBatchSize":1,"gasLimitPerReport":1000000}`)
+		}
 		node := NewNodeWith(t, NodeOpts{N: n, F: f, Digest: digest, OracleID: m.id, OffchainConfig: []byte(`{"performLockoutWindow":100000,"minConfirmations":1,"maxUpkeepBatchSize":3}`),
 			Decoy: decoy, AfterDecoy: func() {
 				w.mu.Lock()
